@@ -351,6 +351,23 @@ fn policies(spec: &StructSpec, thorough: bool) -> Vec<Vec<Clause>> {
             }
         }
     }
+    // three-conjunction policies on the smallest structures (three targets / three clauses)
+    if spec.omega() <= 9 {
+        for i in 1..p1.len() {
+            for j in (i + 1)..p1.len() {
+                for k in (j + 1)..p1.len() {
+                    if spec.omega() > 6 && (i + 2 * j + 3 * k) % 5 != 0 {
+                        continue;
+                    }
+                    out.push(match (i + j + k) % 3 {
+                        0 => vec![p1[i].clone(), p1[j].clone(), p1[k].clone()],
+                        1 => vec![p1[k].clone(), p1[i].clone(), p1[j].clone()],
+                        _ => vec![p1[j].clone(), p1[k].clone(), p1[i].clone()],
+                    });
+                }
+            }
+        }
+    }
     out
 }
 
@@ -604,7 +621,7 @@ pub fn part(run: &mut Run, thorough: bool, owned: &[&str]) {
     }
     run.set("evaluations", json!(tot.cells));
     run.set("distinct_nontrivial", json!(distinct));
-    run.set("rule", json!("every structure of the bounded family (1-3 dimensions, anarchy/hierarchy, 1-3 attributes, hint assignments, insertion scripts so that rank != insertion order != id order != name order; variants: master and public key replaced by their deserialised serialisation before use; an extra attribute inserted at every rank and deleted again before the update) is built through the public API; every single-conjunction policy and pairs of conjunctions (all pairs when |Omega| <= 16, adjacent and every-7th pairs above; P2 x P2 only when all pairs) are used both as user policy (one real key each) and as encryption policy (one real encapsulation each); the full decaps matrix is evaluated against the name-level cover relation. An evaluation is one decaps cell; distinct_nontrivial counts structures whose matrix contains both outcomes"));
+    run.set("rule", json!("every structure of the bounded family (1-3 dimensions, anarchy/hierarchy, 1-3 attributes, hint assignments, insertion scripts so that rank != insertion order != id order != name order; variants: master and public key replaced by their deserialised serialisation before use; an extra attribute inserted at every rank and deleted again before the update) is built through the public API; every single-conjunction policy, pairs of conjunctions in alternating textual order (all pairs when |Omega| <= 16, adjacent and every-7th pairs above; P2 x P2 only when all pairs) and triples (all when |Omega| <= 6, one in five when |Omega| <= 9) are used both as user policy (one real key each) and as encryption policy (one real encapsulation each); the full decaps matrix is evaluated against the name-level cover relation. An evaluation is one decaps cell; distinct_nontrivial counts structures whose matrix contains both outcomes"));
     run.set("structures", json!(specs.len()));
     run.set("cells_opened", json!(tot.opened));
     run.set("cells_refused", json!(tot.refused));
